@@ -198,6 +198,9 @@ def gen(rng, knobs):
             d = rng.choice([cfg["oldest_event"] - 1, cfg["oldest_event"], cfg["oldest_event"] + 1, cfg["oldest_event"] + 30,
                             -3599, -3600, -3601, -3630, 0])
             ev = evgen.make(a, kind=rng.choice([1, 1, 25000]), created_at=T - d, content="t")
+            if rng.random() < 0.08:
+                # not a point in time at all: inside no window
+                ev = evgen.make(a, kind=1, created_at=float("nan"), content="t")
         elif what == "kind":
             ev = evgen.make(a, kind=rng.choice([0, 1, 2, 5, 7, 30000, 30001]), created_at=T - 5, content="k")
         elif what == "pow":
@@ -236,10 +239,12 @@ def parse(text):
 def decide(name, ev, cfg, now, lists_state, service_pub):
     """documented decision of one validator: None = pass, str = refusal reason"""
     if name == "is_signed":
-        return None if model.authentic(ev)[0] else "signature"
+        return None if model.authentic(ev)[0] and type(ev["created_at"]) is int else "signature"
     if name == "is_not_too_large":
         return "size" if len(ev["content"]) > cfg["max_event_size"] else None
     if name == "is_recent":
+        if ev["created_at"] != ev["created_at"]:
+            return "old"         # NaN
         age = now - ev["created_at"]
         if age > cfg["oldest_event"]:
             return "old"
